@@ -131,4 +131,11 @@ def unpackAssignPop (vars unpacked : List Nat) : List (Nat × Nat) := vars.zip u
 def handBackElems (controls : List (List Nat)) : List (List (Nat × Nat)) :=
   controls.reverse.map (fun vars => unpackAssign vars (packCtrl vars))
 
+/-- The same with the call made explicit: `ret ws` is the control array the modified function
+    gives back when handed the array `ws` (an arbitrary function: what the `ControlModifier`ed body
+    does with its control array is outside the repository).  Pack (`array_new`), call, unpack
+    (`unpack_array` + `zip`), per control, in call-output order. -/
+def blockHandBack (ret : List Nat → List Nat) (controls : List (List Nat)) : List (List (Nat × Nat)) :=
+  controls.reverse.map (fun vars => unpackAssign vars (ret (packCtrl vars)))
+
 end GuppyVerif.Modifier
